@@ -317,3 +317,53 @@ impl MatchableTrait for MultiStringParser {
         self.cache
     }
 }
+
+/// Verification hooks (only with `--cfg sqruff_verif`): read-only accessors.
+#[cfg(sqruff_verif)]
+impl TypedParser {
+    pub fn verif_template(&self) -> SyntaxKind {
+        self.template
+    }
+    pub fn verif_target_types(&self) -> &SyntaxSet {
+        &self.target_types
+    }
+    pub fn verif_kind(&self) -> SyntaxKind {
+        self.kind
+    }
+    pub fn verif_optional(&self) -> bool {
+        self.optional
+    }
+}
+
+#[cfg(sqruff_verif)]
+impl StringParser {
+    pub fn verif_template(&self) -> &str {
+        &self.template
+    }
+    pub fn verif_simple(&self) -> &AHashSet<String> {
+        &self.simple
+    }
+    pub fn verif_kind(&self) -> SyntaxKind {
+        self.kind
+    }
+}
+
+#[cfg(sqruff_verif)]
+impl RegexParser {
+    pub fn verif_kind(&self) -> SyntaxKind {
+        self.kind
+    }
+}
+
+#[cfg(sqruff_verif)]
+impl MultiStringParser {
+    pub fn verif_templates(&self) -> &AHashSet<String> {
+        &self.templates
+    }
+    pub fn verif_simple(&self) -> &AHashSet<String> {
+        &self.simple
+    }
+    pub fn verif_kind(&self) -> SyntaxKind {
+        self.kind
+    }
+}
